@@ -5,6 +5,7 @@
 package optplug
 
 import (
+	"strconv"
 	"bytes"
 	"encoding/binary"
 	"encoding/hex"
@@ -287,8 +288,7 @@ func reference4(v Vec, rq req4, reqP pkt.V4) expect4 {
 		}
 	case "mtu":
 		if wants(26) {
-			var m int
-			fmt.Sscan(a[0], &m)
+			m, _ := strconv.Atoi(a[0]) // an MTU is a decimal number, leading zeros or not
 			e.opts[26] = []byte{byte(m >> 8), byte(m)}
 		}
 	case "nbp":
@@ -1242,7 +1242,7 @@ func validVectors(thorough bool) []Vec {
 	for _, a := range [][]string{{"2001:4860:4860::8888"}, {"2001:4860:4860::8888", "::1"}, {"fe80::1", "2001:db8::2", "ff02::fb"}} {
 		add("dns", 6, a...)
 	}
-	for _, m := range []string{"68", "1500", "65535", "0", "576"} {
+	for _, m := range []string{"68", "1500", "65535", "0", "576", "01500", "0576", "00068"} {
 		add("mtu", 4, m)
 	}
 	for _, m := range []string{"255.255.255.0", "255.255.255.255", "128.0.0.0", "255.255.254.0", "255.255.255.252"} {
